@@ -451,6 +451,10 @@ def run(ctx):
     ctx.notes["slack"] = "relative 1e-9 x (abc/V)^2, (abc/V)^2 computed exactly by the spec from the Gram matrix"
     ctx.notes["scale"] = "observed floats shipped as round(x * 2^%d)" % K
     ctx.notes["routes"] = sorted({r for rec in recipes for r in rec["routes"]})
+    ctx.notes["cases"] = {}
+    for rec in recipes:
+        ctx.notes["cases"][rec["source"]] = ctx.notes["cases"].get(rec["source"], 0) + 1
+    ctx.notes["route_observations"] = sum(len(rec["routes"]) for rec in recipes)
 
 
 def replay(ctx, rec):
